@@ -21,6 +21,7 @@ import (
 	"sort"
 	"strings"
 	"sync"
+	"sync/atomic"
 	"time"
 
 	"github.com/notaryproject/notation-core-go/signature"
@@ -443,6 +444,29 @@ func compareIndex(before, after string, artifact digest.Digest, success bool) st
 	return ""
 }
 
+// meetAtExists delays the answer to every existence check of the (2-byte) notation config blob until `want` such checks
+// have been answered by the store, or 300 ms have passed.
+type meetAtExists struct {
+	oras.GraphTarget
+	want, n int32
+	all     chan struct{}
+	once    sync.Once
+}
+
+func (m *meetAtExists) Exists(ctx context.Context, d ocispec.Descriptor) (bool, error) {
+	ok, err := m.GraphTarget.Exists(ctx, d)
+	if d.Size == 2 && d.MediaType == registry.ArtifactTypeNotation {
+		if atomic.AddInt32(&m.n, 1) >= m.want {
+			m.once.Do(func() { close(m.all) })
+		}
+		select {
+		case <-m.all:
+		case <-time.After(300 * time.Millisecond):
+		}
+	}
+	return ok, err
+}
+
 // overlappingCalls: the statement quantifies over consecutive calls; a caller that signs one artifact several times
 // (several keys, several metadata sets) does so from goroutines as readily as in a loop. Each trial signs one artifact
 // in a FRESH on-disk layout (no signature, no notation config blob yet) from G goroutines released together: every call
@@ -470,6 +494,14 @@ func overlappingCalls(r *lib.Run, gs notation.Signer) {
 		repo, err := registry.NewOCIRepository(layout, registry.RepositoryOptions{})
 		if err != nil {
 			panic(err)
+		}
+		G := G
+		if t%2 == 1 {
+			// forced schedule: the calls' existence checks for the shared notation config blob all complete before any
+			// of them pushes it (each check waits for the others, at most 300 ms), the window a free-running trial must hit by luck
+			G = 2 + t%3
+			repo = registry.NewRepository(&meetAtExists{GraphTarget: store, want: int32(G), all: make(chan struct{})})
+			r.Event("overlapping-trials-forced-schedule")
 		}
 		start := make(chan struct{})
 		errs := make([]error, G)
